@@ -89,6 +89,9 @@ func (s *lifeScenario) loopSet(idx int) *sync.Map {
 
 func (s *lifeScenario) onOpen(cs *connState, c gnet.Conn) ([]byte, gnet.Action) {
 	d := &lifeConn{key: cs.key, plan: planFor(cs.key, s.seed, s.allowedPlans())}
+	if strings.HasPrefix(cs.local, "/") && (d.plan == "peerRST" || d.plan == "raceActRST") {
+		d.plan = "peerFIN" // accepted on a unix listener of a Rotate engine
+	}
 	d.k = int32(1 + vlib.Mix(cs.key)%2)
 	cs.sc = d
 	if s.shutdownArmed.Load() {
@@ -394,7 +397,11 @@ func runLifeCase(c cfg, seed uint64, o lifeOpts, keys map[string]struct{}) (eval
 		wg.Add(1)
 		go func(i int, p *lifePeer, pr *vlib.Rand) {
 			defer wg.Done()
-			conn, err := dialPeer(life.dialNet, life.dialAddr)
+			dn, da := life.dialNet, life.dialAddr
+			if life.dial2Addr != "" && i%2 == 1 {
+				dn, da = life.dial2Net, life.dial2Addr // the second listener (Rotate)
+			}
+			conn, err := dialPeer(dn, da)
 			if err != nil {
 				p.err = err
 				return
@@ -402,6 +409,9 @@ func runLifeCase(c cfg, seed uint64, o lifeOpts, keys map[string]struct{}) (eval
 			p.conn = conn
 			p.key = addrKey(conn.LocalAddr().String())
 			p.plan = planFor(p.key, seed, allowed)
+			if dn == "unix" && (p.plan == "peerRST" || p.plan == "raceActRST") {
+				p.plan = "peerFIN" // no RST on unix sockets (the server side computes the same substitution)
+			}
 			// wait for OnOpen
 			for k := 0; k < 4000 && p.cs == nil; k++ {
 				if p.cs = mon.lookupKey(p.key); p.cs == nil {
@@ -855,6 +865,16 @@ func runLifeCase(c cfg, seed uint64, o lifeOpts, keys map[string]struct{}) (eval
 		mon.violate("C06 OnShutdown not invoked exactly once", fmt.Sprintf("OnShutdown ran %d times (source %s)", n, o.shutdownFrom))
 	}
 	mon.lifecycleSummary(life.retSeq)
+	life.checkKeptDup()
+	if life.dial2Net == "unix" || strings.HasPrefix(c.Net, "unix") {
+		for _, pth := range []string{life.dialAddr, life.dial2Addr} {
+			if strings.HasPrefix(pth, "/") {
+				if _, err := os.Stat(pth); err == nil {
+					res.Violate("C07 unix socket file not removed", fmt.Sprintf("%s still exists after Run returned", pth), nil)
+				}
+			}
+		}
+	}
 	// Wake on open idle connections: exactly one OnTraffic each
 	for _, p := range peers {
 		if p.cs == nil {
